@@ -135,7 +135,7 @@ Judge ==
         T == store'
     IN
     \* ---- every step -------------------------------------------------------
-    /\ ((dev' = {} => \A s \in Stores : (s \notin opened' /\ Unclosed(s) \notin opened') => Closed(T, s))
+    /\ ((StoreDev(dev') = {} => \A s \in Stores : (s \notin opened' /\ Unclosed(s) \notin opened') => Closed(T, s))
             \/ Say("VERDICT", "C04", "Closed"))
     /\ (C12_IndexX(T, ridx', delivered', opened', gced') \/ Say("VERDICT", "C12", "Index"))
     /\ ((\A s \in Stores : s \notin opened' => \A o \in Oids : T[s][o] \in {Absent, "ok_u", "ok_p"})
@@ -166,7 +166,7 @@ Judge ==
          /\ (C11_PresentUntouched(L) \/ Say("VERDICT", "C11", "PresentUntouched"))
          /\ (C12_SrcIndexCleared(L, ridx') \/ Say("VERDICT", "C12", "StaleIndexNotCleared"))
          /\ ((\A o \in Oids : Intact(S, xs.src, o) => Intact(T, xs.src, o)) \/ Say("VERDICT", "C11", "SourceUnmodified"))
-         /\ ((dev' = {} => C04_Withheld(L, L.failed, okDirs', T, xs.dst)) \/ Say("VERDICT", "C04", "Withheld"))
+         /\ ((StoreDev(dev') = {} => C04_Withheld(L, L.failed, okDirs', T, xs.dst)) \/ Say("VERDICT", "C04", "Withheld"))
          /\ ((dev' = {} => C04_Complete(L, T)) \/ Say("VERDICT", "C04", "RetryCompletes"))
          /\ ((xs.verify => \A o \in xs.new : T[xs.dst][o] \notin {"bad_u", "bad_p"}) \/ Say("VERDICT", "C07", "VerifyRetainsMismatch"))
          \* (C01: a tampered source excuses the destination of an ordinary transfer, not of a verifying one - once it has
